@@ -390,7 +390,13 @@ func genSession14(c *Chooser) Session {
 	useStdin := c.Chance(2, 5)
 	mkStdin := func(name string) *StdinSpec {
 		plan, ewd := genPlan(c)
-		return &StdinSpec{From: "file:" + name, Plan: plan, EOFWithData: ewd, Redirect: c.Chance(1, 4)}
+		sp := &StdinSpec{From: "file:" + name, Plan: plan, EOFWithData: ewd, Redirect: c.Chance(1, 4)}
+		if sp.Redirect && c.Chance(1, 4) {
+			// the caller read a header from the same file first: jd inherits
+			// the descriptor with its offset behind it
+			sp.Consumed = Blob([]string{"# generated 2000-01-01\n", "---\n", "{\"header\":true}\n", "x"}[c.Int(4)])
+		}
+		return sp
 	}
 	diffProc := func(out string, color bool) ProcSpec {
 		fl := iv.flags()
@@ -404,6 +410,10 @@ func genSession14(c *Chooser) Session {
 		if useStdin {
 			p.Argv = renderArgv(c, fl, []string{an})
 			p.Stdin = mkStdin(bn)
+			if len(p.Stdin.Consumed) == 0 && c.Chance(1, 6) {
+				// the standard input named as a file
+				p.Argv = renderArgv(c, fl, []string{an, simos.DevStdin})
+			}
 		} else {
 			p.Argv = renderArgv(c, fl, []string{an, bn})
 		}
